@@ -84,12 +84,18 @@ func init() {
 		name := string(vunhex(o.Path))
 		aL, bL := splitNewlines(a), splitNewlines(b)
 		all := difflib.NewMatcher(aL, bL).GetGroupedOpCodes(len(aL) + len(bL) + 1)
-		fmt.Fprintf(r.w, "op diff a=%s b=%s name=%s line=%d colour=%s iall=%s\n",
-			vhex([]byte(a)), vhex([]byte(b)), vhex([]byte(name)), o.Count, vb(o.Colour), vGroupsString(all))
 		saved := colors.NOCOLOR
 		colors.NOCOLOR = !o.Colour
 		report := prettyDiff(a, b, name, o.Count)
 		colors.NOCOLOR = saved
+		// the script the library chose and the bytes it printed are handed to the model, which prints that script itself and
+		// READS the printed bytes back with its verified reader
+		irep := "*"
+		if !o.Colour {
+			irep = vhex([]byte(report))
+		}
+		fmt.Fprintf(r.w, "op diff a=%s b=%s name=%s line=%d colour=%s iall=%s ireport=%s\n",
+			vhex([]byte(a)), vhex([]byte(b)), vhex([]byte(name)), o.Count, vb(o.Colour), vGroupsString(all), irep)
 		empty := "0"
 		if report == "" {
 			empty = "1"
@@ -98,6 +104,6 @@ func init() {
 		if !o.Colour {
 			own = vhex([]byte(report))
 		}
-		fmt.Fprintf(r.w, "diff %d empty=%s valid=1 report=%s own=%s\n", r.idx, empty, vhex([]byte(report)), own)
+		fmt.Fprintf(r.w, "diff %d empty=%s valid=1 readable=1 report=%s own=%s\n", r.idx, empty, vhex([]byte(report)), own)
 	}
 }
